@@ -252,6 +252,16 @@ class Interp:
                                     raise ValueError("not written by this serializer")
                                 return ExtendedTypeSerDes().deserialize(data[2:], c)
                         cser = Prefixed()
+                        if st["cserdes"] == "raw":
+                            # text states written as they are: the state "" is recorded as an empty payload, the polls
+                            # still have to be numbered 1, 2, 3, ... (seeded C13-8)
+                            class Raw(SerDes):
+                                def serialize(self, value, c):
+                                    return value
+
+                                def deserialize(self, data, c):
+                                    return data
+                            cser = Raw()
                     v = ctx.wait_for_condition(check, WaitForConditionConfig(wait_strategy=decide, initial_state=VALUE_POOL[st["init"]], serdes=cser), name=name)
                     tok = token_of(v)
                 elif op == "child":
